@@ -106,6 +106,7 @@ def run_case(case):
     res.emit("fog.cnew", "ok")
     res.emit("hx.wnew", "ok")
     res.emit("hx.wdnew", "ok")
+    res.emit("hx.wdrnew", "ok")
     regs = {}           # id(node object) -> model register
     met = {}
     nsteps = 0
@@ -203,6 +204,15 @@ def run_case(case):
         # … and of the raw-level walk model (Model/WalkD.lean: cstepD over the database as it is now)
         res.emit("hx.wdstep 0 %s %d" % (nibstr(p), 1 if use_cache else 0),
                  "fog %s met %s" % (plist([tuple(q) for q in fog._unexplored_prefixes]), newmet))
+        # … and the whole step INCLUDING the retry after a stale cache entry as one transition (cstepDR); the keys of the
+        # cache are compared too
+        ckeys = sorted("_" if len(k) == 0 else nibstr(k) for k in cache._cache) if use_cache else None
+        if ckeys is None:
+            ckeys = kept_keys[0]
+        else:
+            kept_keys[0] = ckeys
+        res.emit("hx.wdstepr 0 %s %d" % (nibstr(p), 1 if use_cache else 0),
+                 "fog %s met %s cache %s" % (plist([tuple(q) for q in fog._unexplored_prefixes]), newmet, ",".join(ckeys) or "-"))
         nsteps += 1
         return True
 
@@ -251,6 +261,7 @@ def run_case(case):
             res.fail("bystander-walk-wrong", "a second walk with its own fog and cache over an unchanging trie raised %r" % (e,))
 
     keep = []            # keep node objects alive so that id() stays unique
+    kept_keys = [[]]
     done = False
     step_no = 0
     for item in case["sched"]:
@@ -265,6 +276,7 @@ def run_case(case):
             res.emit("fog.cnew", "ok")
             res.emit("hx.wcnew", "ok")
             res.emit("hx.wdcnew", "ok")
+            res.emit("hx.wdrcnew", "ok")
         if case.get("refog_at") and step_no == case["refog_at"]:
             # abandon the walk: fresh fog, same cache; what the new walk must find is judged from here on
             fog = HexaryTrieFog()
@@ -273,6 +285,7 @@ def run_case(case):
             nfogs += 1
             res.emit("hx.wrefog", "ok")
             res.emit("hx.wdrefog", "ok")
+            res.emit("hx.wdrrefog", "ok")
             met.clear()
             versions[:] = [dict(r.model)]
             mutated = False
